@@ -1397,17 +1397,58 @@ func ruleScoKeys(c *Ctx, r *R) {
 			if sc == nil {
 				continue
 			}
+			// assignments to the scope: direct, or through a new setter helper
+			// (c.setFunc(name, scope) with `c.typeScope = scope` in its body)
+			type scopeSet struct {
+				rhs ast.Expr
+				at  ast.Node
+			}
+			var sets []scopeSet
 			ast.Inspect(sc.Clause, func(q ast.Node) bool {
-				as, ok := q.(*ast.AssignStmt)
-				if !ok || len(as.Lhs) != len(as.Rhs) || (as.Tok != token.ASSIGN && as.Tok != token.DEFINE) {
-					return true // (scope += suffix only extends a scope that was judged where it was set)
-				}
-				for i, l := range as.Lhs {
-					sel, ok := unparen(l).(*ast.SelectorExpr)
-					if !ok || sel.Sel.Name != "typeScope" {
-						continue
+				switch x := q.(type) {
+				case *ast.AssignStmt:
+					if len(x.Lhs) != len(x.Rhs) || (x.Tok != token.ASSIGN && x.Tok != token.DEFINE) {
+						return true // (scope += suffix only extends a scope that was judged where it was set)
 					}
-					rhs := as.Rhs[i]
+					for i, l := range x.Lhs {
+						if sel, ok := unparen(l).(*ast.SelectorExpr); ok && sel.Sel.Name == "typeScope" {
+							sets = append(sets, scopeSet{x.Rhs[i], x})
+						}
+					}
+				case *ast.CallExpr:
+					o := c.Callee(x)
+					h := c.DeclOf(o)
+					if o == nil || h == nil || h.Body == nil || !c.isNewHelper(o) {
+						return true
+					}
+					k := 0
+					for _, f := range h.Type.Params.List {
+						for _, nm := range f.Names {
+							po := c.Info.Defs[nm]
+							ast.Inspect(h.Body, func(m ast.Node) bool {
+								as, ok := m.(*ast.AssignStmt)
+								if !ok || len(as.Lhs) != len(as.Rhs) {
+									return true
+								}
+								for i, l := range as.Lhs {
+									if sel, ok := unparen(l).(*ast.SelectorExpr); ok && sel.Sel.Name == "typeScope" {
+										if id, ok := unparen(as.Rhs[i]).(*ast.Ident); ok && c.Obj(id) == po && k < len(x.Args) {
+											sets = append(sets, scopeSet{x.Args[k], x})
+										}
+									}
+								}
+								return true
+							})
+							k++
+						}
+					}
+				}
+				return true
+			})
+			for _, ss := range sets {
+				as := ss.at
+				{
+					rhs := ss.rhs
 					if v, isConst := c.ConstString(rhs); isConst && v == "" {
 						continue // cleared after the declaration
 					}
@@ -1428,8 +1469,7 @@ func ruleScoKeys(c *Ctx, r *R) {
 							"compile(\"lambda\") names a function literal's type scope by line and column only: two literals that start at the same line:column in two files of a package share their local types — same-named local structs are merged, so moving a literal to another file changes what the program prints")
 					}
 				}
-				return true
-			})
+			}
 		}
 		if scopeAssigns == 0 {
 			r.undecided("type scope", "-", "no assignment to the compiler's type scope found in the function / method / lambda / init cases")
@@ -1446,9 +1486,16 @@ func ruleScoKeys(c *Ctx, r *R) {
 					return true
 				}
 				for i, l := range as.Lhs {
-					sel, ok := unparen(l).(*ast.SelectorExpr)
-					if !ok || sel.Sel.Name == "FuncName" || i >= len(as.Rhs) {
+					if sel, ok := unparen(l).(*ast.SelectorExpr); ok && sel.Sel.Name == "FuncName" {
 						continue
+					}
+					if i >= len(as.Rhs) {
+						continue
+					}
+					if _, isSel := unparen(l).(*ast.SelectorExpr); !isSel {
+						if _, isId := unparen(l).(*ast.Ident); !isId {
+							continue
+						}
 					}
 					if b, ok := c.TypeOf(l).Underlying().(*types.Basic); !ok || b.Kind() != types.String {
 						continue
